@@ -330,6 +330,29 @@ CLAIMED = {
         design="4 (C13)"),
 }
 
+CLAIMED["C19"] = dict(
+        text="PARTIAL (runtime-backed). Coq theorems (Properties/C19.v, 7 statements, closed under the global context) about the "
+             "model of Model/Store.v (file system = path -> committed content; create_db with force unlinks first, without "
+             "force the schema script fails on the existing database before any row is written; read-style calls are "
+             "functions of the content, merge() only draws ids from in-memory counters): without force an existing database "
+             "makes create_db fail and the whole file system is unchanged; with force the path holds exactly what the importer "
+             "makes of the new input, independently of what was there; other paths are untouched; any sequence of read-style "
+             "calls leaves the file and the .bak alone, so a reopen observes the same features, relations and id counters. "
+             "What the model cannot exhibit - that sqlite really fails the schema script before touching the file, and that no "
+             "read path of interface.py issues a write - is decided by the correspondence on the running code: 150 (old "
+             "database, new input) pairs per quick run (ids disjoint / overlapping / equal, force on/off) with sha256 of the "
+             "file before/after and the tables afterwards compared with the model's prediction inside Coq; 150 file databases "
+             "with sequences of 3-12 read-style calls over 18 methods with generated arguments, recording EVERY statement the "
+             "FeatureDB connection executes (sqlite3 trace callback: only SELECT/PRAGMA allowed), sha256 of the file, and "
+             "tables, directives, meta rows and counters through a fresh connection before and after.",
+        note="Trusted: Coq kernel + vm_compute; Model/Store.v hand-written. The theorems are about the model only; the runtime "
+             "part (sqlite executescript atomicity, os.unlink, absence of writes on read paths) rests on the differential/"
+             "trace check, which can miss a write on a read path its generator does not reach (18 methods, generated "
+             "arguments). Statement classification is by first keyword. File databases; merge_strategy create_unique so that "
+             "a create_db that wrongly proceeds is visible whatever the ids.",
+        technique="Coq proof on a file-system/state-machine model (refusal, replacement, purity of reads by induction over call sequences); runtime part by differential correspondence with statement tracing and file hashing",
+        design="4 (C19)")
+
 PENDING_REASON = "machinery for this property is not built yet in this revision (planned, see DESIGN.md section 4/9); not claimed until its check exists"
 
 
